@@ -161,10 +161,23 @@ func c12TypeNames(sc schemaSpec) []string {
 
 func c12RandOp(r *rng, sc schemaSpec) c12Op {
 	names := c12TypeNames(sc)
-	switch r.intn(14) {
+	switch r.intn(15) {
 	case 12:
 		// a collection of one of the schema's types, built from what the schema hands out
 		return c12Op{kind: "collection", tn: pick(r, names), arg: strconv.Itoa(r.intn(1000))}
+	case 14:
+		// the structure a new resource reports is edited by its owner
+		var structBacked []string
+		for _, n := range names {
+			if sc.wrapped[n] {
+				structBacked = append(structBacked, n)
+			}
+		}
+		if len(structBacked) == 0 {
+			return c12Op{kind: "rels"}
+		}
+		// (struct-backed types only: a soft resource's type shares its maps with the schema's by design)
+		return c12Op{kind: "edit-result", tn: pick(r, structBacked), arg: strconv.Itoa(r.intn(1000))}
 	case 13:
 		// resources of two of the schema's types added to a collection before it is given a type
 		return c12Op{kind: "collection-untyped", tn: pick(r, names), arg: pick(r, names)}
@@ -296,6 +309,21 @@ func c12Run(s *jsonapi.Schema, sc schemaSpec, o c12Op) (out string) {
 			it = append(it, oFullResource(col.At(i)))
 		}
 		return strings.Join(it, " ")
+	case "edit-result":
+		typ := s.GetType(o.tn)
+		res := typ.New()
+		rt := res.GetType()
+		_ = rt.AddAttr(jsonapi.Attr{Name: "added-by-" + o.arg, Type: jsonapi.AttrTypeInt})
+		for n := range rt.Rels {
+			rt.RemoveRel(n)
+			break
+		}
+		am := res.Attrs()
+		for n := range am {
+			delete(am, n)
+		}
+		again := s.GetType(o.tn)
+		return oStruct(again.New())
 	case "collection-untyped":
 		col := &jsonapi.SoftCollection{}
 		var it []string
